@@ -19,7 +19,7 @@ type C15 struct {
 	n    int
 }
 
-func NewC15() *C15          { return &C15{st: NewStats("C15")} }
+func NewC15() *C15           { return &C15{st: NewStats("C15")} }
 func (m *C15) Stats() *Stats { return m.st }
 
 func supplyMap(w *chain.World, ctx sdk.Context) map[string]math.Int {
